@@ -48,7 +48,9 @@ def run_case(case):
     from frequenz.sdk.microgrid._power_distributing import power_distributing as pd
     from frequenz.sdk.microgrid._power_distributing.request import Request
 
-    log: list = []
+    logs: list = [[]]                    # one log per PowerDistributingActor instance in the process
+    log = logs[0]
+    building = [0]                       # index of the instance under construction (read by the probe manager)
     rid_of: dict[int, int] = {}          # id(Request object) -> sequence number: requests are told apart by IDENTITY
     sent: list = []                      # keeps the objects alive (ids stay unique)
     modes: dict[int, list] = {}
@@ -60,7 +62,7 @@ def run_case(case):
 
     class ProbeManager:
         def __init__(self, status_sender, results_sender, timeout):
-            pass
+            self.k = building[0]
 
         async def start(self):
             d = case.get("mgr_start_ms", 0)
@@ -73,10 +75,12 @@ def run_case(case):
         def distribute_power(self, request):
             g = GROUP_OF[frozenset(request.component_ids)]
             r = rid_of[id(request)]
-            log.append(["S", g, r, now_us()])
+            logs[self.k].append(["S", g, r, now_us()])
             return self._go(g, r)
 
         async def _go(self, g, r):
+            log = logs[self.k]
+            gkey = (self.k, g)
             log.append(["E", g, r, now_us()])
             ok = True
             state = {"ok": True}
@@ -88,9 +92,9 @@ def run_case(case):
             kind, res = mode.split("_")
             if kind == "gate":
                 fut = loop.create_future()
-                gates[g] = fut
+                gates[gkey] = fut
                 await fut
-                gates.pop(g, None)
+                gates.pop(gkey, None)
             elif kind == "sleep":
                 await asyncio.sleep(arg / 1000.0)
             ok = res == "ok"
@@ -100,14 +104,16 @@ def run_case(case):
                 raise ProbeError(f"request {r}")
 
     class LoggingReceiver(Receiver):
-        def __init__(self, inner):
+        def __init__(self, inner, k=0):
             self._inner = inner
+            self._k = k
 
         async def ready(self):
             return await self._inner.ready()
 
         def consume(self):
             request = self._inner.consume()
+            log = logs[self._k]
             if request.component_ids is None:      # malformed: frozenset(None) raises in _run -> the Actor restarts _run
                 log.append(["R", "bad", now_us()])
             else:
@@ -153,11 +159,43 @@ def run_case(case):
         for _ in range(case.get("warm", 3)):
             await asyncio.sleep(0)
         sender = req.new_sender()
+        insts = [{"actor": actor, "sender": sender, "live": True}]
+        cur = 0
+
+        def build():
+            """another PowerDistributingActor in the same process, with its own channels and its own probe manager"""
+            k = len(insts)
+            logs.append([])
+            building[0] = k
+            saved_ = pd.BatteryManager
+            pd.BatteryManager = ProbeManager
+            try:
+                rq = Broadcast(name=f"requests{k}")
+                a_ = pd.PowerDistributingActor(
+                    LoggingReceiver(rq.new_receiver(limit=200), k), Broadcast(name=f"results{k}").new_sender(),
+                    Broadcast(name=f"status{k}").new_sender(),
+                    api_power_request_timeout=timedelta(seconds=5), component_category=ComponentCategory.BATTERY)
+            finally:
+                pd.BatteryManager = saved_
+            a_.start()
+            insts.append({"actor": a_, "sender": rq.new_sender(), "live": True})
+            return k
         rid = 0
         nbad = [0]
+        sent_cnt = {}                 # instance -> messages sent on its request channel
         for step in case["steps"]:
             op = step[0]
-            if op == "req":
+            actor, sender, log = insts[cur]["actor"], insts[cur]["sender"], logs[cur]
+            if op == "spawn":              # a second live instance, side by side
+                build()
+            elif op == "use":              # later steps address instance step[1] (if it exists and is live)
+                if step[1] < len(insts) and insts[step[1]]["live"]:
+                    cur = step[1]
+            elif op == "replace":          # the current instance is stopped and replaced by a fresh one
+                await actor.stop()
+                insts[cur]["live"] = False
+                cur = build()
+            elif op == "req":
                 rid += 1
                 modes[rid] = [step[2], step[3]]
                 val = step[4] if len(step) > 4 else rid        # the VALUE may repeat; the identity never does
@@ -172,9 +210,11 @@ def run_case(case):
                 req_obj = Request(Power.from_watts(float(val)), ids_obj)
                 rid_of[id(req_obj)] = rid
                 sent.append(req_obj)
+                sent_cnt[cur] = sent_cnt.get(cur, 0) + 1
                 await sender.send(req_obj)
             elif op == "bad":
                 nbad[0] += 1
+                sent_cnt[cur] = sent_cnt.get(cur, 0) + 1
                 req_obj = Request(Power.from_watts(0.0), None)  # type: ignore[arg-type]
                 sent.append(req_obj)
                 await sender.send(req_obj)
@@ -184,23 +224,25 @@ def run_case(case):
                     await asyncio.sleep(step[1] / 1000.0)
                 log.append(["R", "stopstart", now_us()])
                 actor.start()
-            elif op == "rel":
-                fut = gates.get(step[1])
-                if fut is not None and not fut.done():
-                    fut.set_result(None)
+            elif op == "rel":              # releases the gate of group step[1] in every instance
+                for (k_, g_), fut in list(gates.items()):
+                    if g_ == step[1] and not fut.done():
+                        fut.set_result(None)
             elif op == "yield":
                 for _ in range(step[1]):
                     await asyncio.sleep(0)
             elif op == "sleep":
                 await asyncio.sleep(step[1] / 1000.0)
         # snapshot before draining, then drain to quiescence
-        mid = snapshot(actor)
-        n_mid = len(log)
+        mid = [snapshot(i["actor"]) for i in insts]
+        n_mid = [len(l) for l in logs]
         for _ in range(200 + 50 * nbad[0]):       # every malformed request costs one RESTART_DELAY (2 s) of virtual time
             for _ in range(6):
                 await asyncio.sleep(0)
-            consumed = sum(1 for e in log if e[0] == "A" or (e[0] == "R" and e[1] == "bad"))
-            if not actor._processing_tasks and not actor._pending_requests and consumed == rid + nbad[0]:
+            consumed = [sum(1 for e in l if e[0] == "A" or (e[0] == "R" and e[1] == "bad")) for l in logs]
+            # (what was sent to an instance that was stopped before it consumed it stays unread: not waited for)
+            if all(not i["actor"]._processing_tasks and not i["actor"]._pending_requests for i in insts) \
+                    and all(consumed[k_] == sent_cnt.get(k_, 0) for k_, i in enumerate(insts) if i["live"]):
                 break
             for fut in list(gates.values()):
                 if not fut.done():
@@ -208,10 +250,12 @@ def run_case(case):
             await asyncio.sleep(0.05)
         for _ in range(6):
             await asyncio.sleep(0)
-        final = snapshot(actor)
-        alive = actor.is_running
-        await actor.stop()
-        return mid, n_mid, final, alive
+        final = [snapshot(i["actor"]) for i in insts]
+        alive = [i["actor"].is_running for i in insts]
+        live = [i["live"] for i in insts]
+        for i in insts:
+            await i["actor"].stop()
+        return mid, n_mid, final, alive, live
 
     def snapshot(actor):
         out = []
@@ -225,11 +269,46 @@ def run_case(case):
 
     asyncio.set_event_loop(loop)
     try:
-        mid, n_mid, final, alive = loop.run_until_complete(main())
+        mid, n_mid, final, alive, live = loop.run_until_complete(main())
     finally:
         asyncio.set_event_loop(None)
         loop.close()
-    return {"log": log, "n_mid": n_mid, "mid": mid, "final": final, "alive": alive}
+    out = {"log": logs[0], "n_mid": n_mid[0], "mid": mid[0], "final": final[0], "alive": alive[0] or not live[0], "live": live[0]}
+    if len(logs) > 1:       # further instances of the same process, each with its own observation
+        out["more"] = [{"log": logs[k], "n_mid": n_mid[k], "mid": mid[k], "final": final[k],
+                        "alive": alive[k] or not live[k], "live": live[k]} for k in range(1, len(logs))]
+    return out
+
+
+def instances(obs):
+    """observations per actor instance"""
+    return [obs] + obs.get("more", [])
+
+
+def issued_by_instance(case, n):
+    """requests issued per instance and group: replays the instance bookkeeping of the schedule"""
+    out = [dict() for _ in range(n)]
+    live = [True] + [False] * (n - 1)
+    made, cur, rid = 1, 0, 0
+    for st in case["steps"]:
+        if st[0] == "spawn":
+            if made < n:
+                live[made] = True
+            made += 1
+        elif st[0] == "use":
+            if st[1] < made and st[1] < n and live[st[1]]:
+                cur = st[1]
+        elif st[0] == "replace":
+            live[cur] = False
+            cur = made
+            if made < n:
+                live[made] = True
+            made += 1
+        elif st[0] == "req":
+            rid += 1
+            if cur < n:
+                out[cur].setdefault(st[1], []).append(rid)
+    return out
 
 
 # ----------------------------------------------------------------------------- observation -> model steps
@@ -286,7 +365,8 @@ Definition snap_ok (st : dstate) (s : list (Z * bool * option Z)) : bool :=
    observed steps of the drain phase, the actor's dictionaries at the end *)
 Definition mkc (o1 : list (devent * list dout)) (s1 : list (Z * bool * option Z))
                (o2 : list (devent * list dout)) (s2 : list (Z * bool * option Z)) := (o1, s1, o2, s2).
-Definition check (c : list (devent * list dout) * list (Z * bool * option Z)
+(* one tuple per PowerDistributingActor instance of the process: every instance is its own machine *)
+Definition check1 (c : list (devent * list dout) * list (Z * bool * option Z)
                       * list (devent * list dout) * list (Z * bool * option Z)) : bool :=
   let '(o1, s1, o2, s2) := c in
   match dreplay d_init o1 with
@@ -298,6 +378,8 @@ Definition check (c : list (devent * list dout) * list (Z * bool * option Z)
       | Some st2 => snap_ok st2 s2
       end
   end.
+Definition check (cs : list (list (devent * list dout) * list (Z * bool * option Z)
+                             * list (devent * list dout) * list (Z * bool * option Z))) : bool := forallb check1 cs.
 """
 
 
@@ -398,6 +480,57 @@ def shrink_case(case):
             yield {"steps": st[:i] + [["req", 1, s[2], s[3]] + s[4:]] + st[i + 1:]}
 
 
+def gen_multi_case(rng):
+    """Two or three PowerDistributingActor instances in ONE process: sequential replacement (stop X, create Y for the
+    same components) and side by side (same and disjoint groups), with distributions in flight across the switch."""
+    k = rng.choice([1, 2, 2, 3])
+    style = rng.choice(["replace", "replace", "side", "both"])
+    steps = []
+    made, cur, live = 1, 0, [True]
+    n = rng.choice([2, 3, 4, 6, 8, 12])
+    sent = 0
+    while sent < n:
+        x = rng.random()
+        if x < 0.5:
+            mode = rng.choice(["gate_ok", "gate_ok", "gate_exc", "instant_ok", "sleep_ok", "sleep_exc"])
+            steps.append(["req", rng.randint(1, k), mode, rng.choice([10, 50, 200])])
+            sent += 1
+        elif x < 0.62 and made < 3:
+            if style in ("replace", "both") and (style == "replace" or rng.random() < 0.5):
+                steps.append(["replace"])
+                live[cur] = False
+                cur = made
+            else:
+                steps.append(["spawn"])
+            live.append(True)
+            made += 1
+        elif x < 0.72 and made > 1:
+            cand = [i for i in range(made) if live[i]]
+            cur = rng.choice(cand)
+            steps.append(["use", cur])
+        elif x < 0.84:
+            steps.append(["rel", rng.randint(1, k)])
+        elif x < 0.95:
+            steps.append(["yield", rng.choice([1, 2, 3])])
+        else:
+            steps.append(["sleep", rng.choice([10, 50, 60, 200])])
+    return {"steps": steps}
+
+
+def multi_boundary_cases():
+    R = lambda g, m="gate_ok": ["req", g, m, 10]
+    Y = ["yield", 3]
+    return [
+        # X has a distribution in flight, is stopped and replaced by Y for the same components; Y gets a request
+        {"steps": [R(1), Y, ["replace"], Y, R(1), Y, ["rel", 1], Y]},
+        {"steps": [R(1), Y, R(1), ["replace"], Y, R(1, "instant_ok"), R(2), Y, ["rel", 1], Y, ["rel", 1]]},
+        # two live instances side by side: same group, disjoint groups
+        {"steps": [["spawn"], R(1), Y, ["use", 1], R(1), Y, R(1), ["use", 0], R(1), Y, ["rel", 1], Y]},
+        {"steps": [["spawn"], R(1), Y, ["use", 1], R(2), R(3, "instant_ok"), Y, ["rel", 2], ["use", 0], R(2), Y]},
+        {"steps": [R(1, "sleep_ok"), ["replace"], R(1, "sleep_exc"), ["spawn"], ["use", 2], R(1, "instant_ok"), ["sleep", 20]]},
+    ]
+
+
 def gen_wrapper_case(rng):
     """Requests sent on the wrapper's own channel: bursts for 2-3 groups within one loop turn, requests sent
     before / while `component_manager.start()` is awaited, up to a few dozen back to back (always fewer unread
@@ -438,7 +571,7 @@ def wrapper_boundary_cases():
 class DistStream(Stream):
     name = "schedule"
     coq_header = HEADER
-    n_quick = 1500
+    n_quick = 1200
     n_thorough = 6000
     exhaustive_quick = 4
     exhaustive_thorough = 6
@@ -454,12 +587,15 @@ class DistStream(Stream):
         return obs
 
     def to_coq(self, case, obs):
-        log, n = obs["log"], obs["n_mid"]
-        return (f"(mkc {c_steps(observed_steps(log[:n]))} {c_snapshot(obs['mid'])} "
-                f"{c_steps(observed_steps(log[n:]))} {c_snapshot(obs['final'])})")
+        terms = []
+        for sub in instances(obs):
+            log, n = sub["log"], sub["n_mid"]
+            terms.append(f"(mkc {c_steps(observed_steps(log[:n]))} {c_snapshot(sub['mid'])} "
+                         f"{c_steps(observed_steps(log[n:]))} {c_snapshot(sub['final'])})")
+        return "[" + "; ".join(terms) + "]"
 
     def show_term(self, case, obs):
-        return f"dreplay d_init {c_steps(observed_steps(obs['log']))}"
+        return "[" + "; ".join(f"dreplay d_init {c_steps(observed_steps(sub['log']))}" for sub in instances(obs)) + "]"
 
     def shrink(self, case):
         for c in shrink_case(case):
@@ -469,11 +605,31 @@ class DistStream(Stream):
         steps = observed_steps(obs["log"])
         if len(steps) < 2:
             return None
-        return json.dumps([[s[0][:3], s[1]] for s in steps])
+        more = [[[s[0][:3], s[1]] for s in observed_steps(sub["log"])] for sub in obs.get("more", [])]
+        return json.dumps([[[s[0][:3], s[1]] for s in steps]] + more)
 
     def labels(self, case, obs):
         log = obs["log"]
         out = []
+        if obs.get("more"):
+            out.append(f"instances={1 + len(obs['more'])}")
+            kinds = {s_[0] for s_ in case["steps"]}
+            out += ["instance_replaced" for _ in [0] if "replace" in kinds] + ["instances_side_by_side" for _ in [0] if "spawn" in kinds]
+            # an instance consumed a request for a group while ANOTHER instance had a task of that group in flight
+            spans = []
+            for k_, sub in enumerate(instances(obs)):
+                open_ = {}
+                for e in sub["log"]:
+                    if e[0] == "S":
+                        open_[e[1]] = e[-1]
+                    elif e[0] == "F" and e[1] in open_:
+                        spans.append((k_, e[1], open_.pop(e[1]), e[-1]))
+                for g_, t0 in open_.items():
+                    spans.append((k_, g_, t0, 10**18))
+            for k_, sub in enumerate(instances(obs)):
+                for e in sub["log"]:
+                    if e[0] == "A" and any(k2 != k_ and g2 == e[1] and t0 <= e[-1] <= t1 for k2, g2, t0, t1 in spans):
+                        out.append("request_while_other_instance_has_same_group_in_flight")
         if case.get("via") == "wrapper":
             out += ["via_power_wrapper", f"warm_yields={case.get('warm', 3)}", f"manager_start_ms={case.get('mgr_start_ms', 0)}"]
             burst = best = 0
